@@ -337,8 +337,39 @@ pub fn gen_time(rng: &mut Rng) -> MVal {
 pub const T1980: i64 = 315532800;
 pub const T2060: i64 = 2840140800;
 
+/// An instant within about an hour of one of the zone's UTC-offset changes in a random year (the repeated / skipped
+/// local hour and its surroundings), or None if the zone's offset does not change that year.
+pub fn near_transition(rng: &mut Rng, tz: chrono_tz::Tz) -> Option<i64> {
+    use chrono::{Offset, TimeZone};
+    let off = |t: i64| tz.timestamp_opt(t, 0).unwrap().offset().fix().local_minus_utc();
+    let year0 = T1980 + rng.range(0, 79) * 31_556_952;
+    let mut t = year0;
+    let mut o = off(t);
+    for _ in 0..366 {
+        let n = t + 86_400;
+        if off(n) != o {
+            let (mut lo, mut hi) = (t, n);
+            while hi - lo > 1 {
+                let mid = lo + (hi - lo) / 2;
+                if off(mid) == o {
+                    lo = mid;
+                } else {
+                    hi = mid;
+                }
+            }
+            // keep going to the year's second change half of the time
+            if rng.coin() {
+                return Some((hi + rng.range(-3_700, 3_700)).clamp(T1980, T2060 - 1));
+            }
+            o = off(n);
+        }
+        t = n;
+    }
+    None
+}
+
 pub fn gen_datetime(rng: &mut Rng) -> MVal {
-    let secs = rng.range(T1980, T2060 - 1);
+    let mut secs = rng.range(T1980, T2060 - 1);
     let nanos = gen_nanos(rng);
     let tz = if rng.chance(1, 4) {
         chrono_tz::UTC
@@ -346,6 +377,12 @@ pub fn gen_datetime(rng: &mut Rng) -> MVal {
         let zs = unambiguous_zones();
         zs[rng.below(zs.len())]
     };
+    // one in six: around a daylight-saving change of that zone (repeated and skipped local hours)
+    if rng.chance(1, 6) {
+        if let Some(t) = near_transition(rng, tz) {
+            secs = t;
+        }
+    }
     MVal::DateTime(mdatetime(tz, secs, nanos))
 }
 
@@ -379,7 +416,12 @@ pub fn gen_scalar_of_kind(rng: &mut Rng, kind: usize) -> MVal {
         7 => MVal::Uri(gen_string_with(rng, false)),
         8 => {
             let id = gen_ref_id(rng);
-            let dis = if rng.chance(2, 5) { Some(gen_string(rng)) } else { None };
+            // (a display name that merely repeats the id is still a display name)
+            let dis = match rng.below(10) {
+                0 => Some(id.clone()),
+                1..=3 => Some(gen_string(rng)),
+                _ => None,
+            };
             MVal::Ref(id, dis)
         }
         9 => MVal::Symbol(gen_symbol_body(rng)),
